@@ -463,6 +463,7 @@ func runCheck(prop, tier, repo string, verbose, safety bool, timeout int) int {
 		perObl = append(perObl, map[string]interface{}{"name": name, "kind": g.Kind, "paths": len(g.Obls), "solver": g.Solver, "time_s": round3(g.Time), "discharged": len(g.Failed) == 0})
 	}
 	if os.Getenv("GOVC_SLOW") != "" {
+		fmt.Printf("PROF ground instantiation: %.1fs cpu in total\n", float64(groundNanos)/1e9)
 		for _, o := range obls {
 			if o.Wall > 2 {
 				fmt.Printf("SLOW %.1fs %s %s %s\n", o.Wall, o.Result, o.Solver, o.Name)
@@ -481,7 +482,29 @@ func runCheck(prop, tier, repo string, verbose, safety bool, timeout int) int {
 	}
 	wall := time.Since(start).Seconds()
 	// evidence
+	// bounded stand-ins (exhaustive runs of the real function over a stated finite domain): reported and recorded, never
+	// counted among the discharged proof obligations
+	bounded := v.runBounded(prop, root)
+	var boundedEv []map[string]interface{}
+	for _, b := range bounded {
+		if b.OK {
+			fmt.Printf("BOUNDED %s: ok, %s (bound: %s) -- bounded check of the real function, not a proof\n", b.Name, b.Cases, b.Bound)
+		} else {
+			violations++
+			os.MkdirAll(replayDir, 0o755)
+			rp := filepath.Join(replayDir, sanitizeFile(b.Name)+".json")
+			rb, _ := json.MarshalIndent(map[string]interface{}{"property": prop, "obligation": b.Name, "kind": "bounded", "bound": b.Bound, "test_output": b.Output,
+				"note": "the failing input is printed by the harness (BOUNDED-FAIL line): it was executed on the real function"}, "", " ")
+			os.WriteFile(rp, rb, 0o644)
+			fmt.Printf("FAILED-OBLIGATION %s result=bounded-check-failed clause=%q\n", b.Name, firstLines(b.Output, 4))
+			fmt.Printf("VIOLATION property=%s replay=%s\n", prop, rp)
+		}
+		boundedEv = append(boundedEv, map[string]interface{}{"name": b.Name, "bound": b.Bound, "ok": b.OK, "cases": b.Cases})
+	}
 	var extra map[string]interface{}
+	if len(boundedEv) > 0 {
+		extra = map[string]interface{}{"bounded_checks": boundedEv, "bounded_obligations": len(boundedEv)}
+	}
 	if tier == "thorough" && !noEvidence {
 		rep := &thoroughReport{}
 		v.secondSolver(obls, rep)
@@ -507,12 +530,17 @@ func runCheck(prop, tier, repo string, verbose, safety bool, timeout int) int {
 		}
 		fmt.Printf("thorough: %d/%d discharged obligations confirmed by a second solver (%d undecided by it), %d axioms validated on %d concrete evaluations (%d not evaluable), self-test %d/%d mutants caught, findings replayed: %v\n",
 			rep.SecondSolverConfirmed, rep.SecondSolverConfirmed+rep.SecondSolverUndecided, rep.SecondSolverUndecided, rep.AxiomsValidated, rep.AxiomEvaluations, len(rep.AxiomsNotEvaluable), rep.MutantsCaught, rep.MutantsRun, rep.FindingsReplayed)
-		extra = map[string]interface{}{
+		if extra == nil {
+			extra = map[string]interface{}{}
+		}
+		for k, x := range map[string]interface{}{
 			"second_solver_confirmed": rep.SecondSolverConfirmed, "second_solver_undecided": rep.SecondSolverUndecided, "disagreements_checked": rep.SecondSolverConfirmed + rep.SecondSolverUndecided,
 			"solver_disagreements": rep.Disagreements, "axioms_validated_concretely": rep.AxiomsValidated, "axiom_evaluations": rep.AxiomEvaluations,
 			"axioms_not_evaluable": rep.AxiomsNotEvaluable, "axioms_falsified": rep.AxiomsFalsified,
 			"selftest_mutants_run": rep.MutantsRun, "selftest_mutants_caught": rep.MutantsCaught, "selftest_mutants_missed": rep.MutantsMissed,
 			"findings_replayed": rep.FindingsReplayed,
+		} {
+			extra[k] = x
 		}
 	}
 	wall = time.Since(start).Seconds()
